@@ -3,13 +3,13 @@
 long_to_bytes / bytes_to_long: see the end of the file (bytes_to_long is PROVED here against be(); long_to_bytes is not)."""
 from vf.pyvc.contracts import Contract, ClassContract
 from .base import base_registry
-from ._intcommon import add_entropy_model, add_lemmas, lemma_units, TAPE_T, LEMMA_TEXT   # noqa
+from ._intcommon import add_entropy_model, add_lemmas, lemma_units, sys_untouched, TAPE_T, LEMMA_TEXT   # noqa
 
 N = 'Crypto.Util.number.'
 RFT = TAPE_T + '|none'
 TP = 'tape_of(randfunc)'
 P0 = 'old(tape_of(randfunc).g_pos)'
-SYS_UNTOUCHED = '(tape_of(randfunc) is not systape()) ==> systape().g_pos == old(systape().g_pos)'
+SYS_UNTOUCHED = sys_untouched(TP)
 
 
 def registry():
